@@ -113,9 +113,10 @@ def split_with_escape(
                             separated_items[start_from_item+i] = item[:-count_of_double_escape_characters*2] + escape_character*count_of_double_escape_characters
                     if count_of_trailing_escape_characters % 2:
                         # Odd count_of_trailing_escape_characters, so last escape charater terminates delimiter
+                        if maxsplit:
+                            # The escaped delimiter has used up one of maxsplit splits: split the rest of the buffer once more
+                            separated_items[-1:] = separated_items[-1].split(delimiter, 1)
                         separated_items[start_from_item+i] = item[:-1] + delimiter + separated_items.pop(start_from_item+i+1)
-                        if maxsplit and maxsplit+1 < len(separated_items) and delimiter in separated_items[-1]:
-                            separated_items.extend(split_with_escape(separated_items.pop(-1), delimiter, 1, escape_character, trim_trailing_double_escape_characters))
                         start_from_item = start_from_item+i
                         break # repeat loop from the start_from_item, because of separated_items is changed
             else:
